@@ -4144,6 +4144,7 @@ class UDFFileEntry:
         old_num_extents = utils.ceiling_div(self.info_len, logical_block_size)
         self.info_len -= UDFFileIdentifierDescriptor.length(len(this_desc.fi))
         new_num_extents = utils.ceiling_div(self.info_len, logical_block_size)
+        self.log_block_recorded = new_num_extents
         self.alloc_descs[0].extent_length = self.info_len
 
         del self.fi_descs[desc_index]
